@@ -49,6 +49,8 @@ Proof.
     + apply (J7 s I u q m0).
   - intros u. rewrite HT. destruct (Nat.eqb_spec u t) as [->|Hne']; cbn [started x']; [discriminate|].
     apply (J8 s I u).
+  - intros Hl H0. rewrite Htot in H0. destruct (J9 s I Hl H0) as (h & Hm). exists h. rewrite HT.
+    destruct (Nat.eqb_spec h t) as [->|]; cbn [mustfree x']; exact Hm.
 Qed.
 
 (* ---------- AReadM: the freeing thread reads the header after its fence ---------- *)
@@ -95,4 +97,5 @@ Proof.
   - intros u q m0. rewrite HT. destruct (Nat.eqb_spec u t) as [->|Hne']; cbn [refs clk x']; rewrite Hr0; lia.
   - intros u. rewrite HT. destruct (Nat.eqb_spec u t) as [->|Hne']; cbn [started x']; [discriminate|].
     apply (J8 s I u).
+  - intros _ _. exists t. rewrite HT, Nat.eqb_refl. reflexivity.
 Qed.
